@@ -193,6 +193,35 @@ func vmtGenVector(r *rand.Rand, n int) *vmtVector {
 		v.inject[r.Intn(n)] = [2]uint64{0, 0}
 		return v
 	}
+	if kind == 4 || kind == 5 { // one extreme outlier (>= 7x the trimmed average) together with a node between 2x and 7x
+		t := uint64(r.Intn(25) + 5)
+		big, mid := r.Intn(n), r.Intn(n)
+		for mid == big {
+			mid = r.Intn(n)
+		}
+		out, mm := uint64(20+r.Intn(30)), uint64(3+r.Intn(3))
+		if kind == 4 { // injected, with sign counts
+			v.inject = make([][2]uint64, n)
+			y := uint64(r.Intn(400))
+			for i := range v.inject {
+				v.inject[i] = [2]uint64{t * 10, y}
+			}
+			v.inject[big] = [2]uint64{t * 10 * out, y * out}
+			v.inject[mid] = [2]uint64{t * 10 * mm, y * mm}
+			if r.Intn(2) == 0 {
+				z := r.Intn(n)
+				if z != big && z != mid {
+					v.inject[z] = [2]uint64{0, 0}
+				}
+			}
+			return v
+		}
+		for i := 0; i < n; i++ { // written through WriteRoundWork, nobody co-signs: work = 1.2 * lead
+			v.lead[i] = int(t) + r.Intn(2)
+		}
+		v.lead[big], v.lead[mid] = int(t*out), int(t*mm)
+		return v
+	}
 	typical := r.Intn(60) + 1
 	idle := make([]bool, n)
 	for i := 0; i < n; i++ {
